@@ -55,7 +55,12 @@ def scan(f, init, xs=None, length=None, reverse=False, unroll=1, **kw):
     carry_t = real_jtu.tree_unflatten(treedef, [c(t) for c in cfs])
     pos = (Tt - 1 - t) if reverse else t
     x_t = jtu_stub.tree_map(lambda leaf: lane(leaf, Sym(pos), 0) if isinstance(leaf, Tensor) else leaf, xs)
-    new_carry, y = f(carry_t, x_t)
+    lanes = eng.extra.setdefault("lanes", [])
+    lanes.append(t)
+    try:
+        new_carry, y = f(carry_t, x_t)
+    finally:
+        lanes.pop()
     new_leaves, treedef2 = real_jtu.tree_flatten(new_carry, is_leaf=lambda x: isinstance(x, (Sym, Tensor)))
     if treedef2 != treedef:
         raise TypeError("scan body function carry input and carry output must have the same pytree structure")
